@@ -919,7 +919,11 @@ func icaCheck(prop, rule string, nontriv []string, tune func(o *ICAOptions, r *r
 		MakeConfig: func(tier string, seed int64) sim.WorldConfig {
 			r := rand.New(rand.NewSource(seed ^ 0x494341))
 			o := DefaultICAOptions()
-			o.Allow = [][]string{nil, {"*"}, {"/cosmos.bank.v1beta1.MsgSend"}, {"/cosmos.bank.v1beta1.MsgSend", "/cosmos.authz.v1beta1.MsgExec"}, {"/cosmos.bank.v1beta1.MsgSend", "/cosmos.staking.v1beta1.MsgDelegate"}}[r.Intn(5)]
+			o.Allow = [][]string{nil, {"*"}, {"/cosmos.bank.v1beta1.MsgSend"}, {"/cosmos.bank.v1beta1.MsgSend", "/cosmos.authz.v1beta1.MsgExec"}, {"/cosmos.bank.v1beta1.MsgSend", "/cosmos.staking.v1beta1.MsgDelegate"},
+				// entries that are NOT the type of any message sent here but resemble one: a strict prefix of the
+				// send type, the send type with a trailing blank, another case; only exact types may execute
+				{"/cosmos.bank.v1beta1.Msg", "/cosmos.staking.v1beta1.MsgDelegate"}, {"/cosmos.bank.v1beta1.MsgSend ", "/cosmos.authz.v1beta1.MsgExec"},
+				{"/cosmos.bank.v1beta1.msgsend"}}[r.Intn(8)]
 			if tune != nil {
 				tune(&o, r)
 			}
